@@ -1,0 +1,247 @@
+// Copyright 2017 Pilosa Corp.
+//
+// Licensed under the Apache License, Version 2.0 (the "License");
+// you may not use this file except in compliance with the License.
+// You may obtain a copy of the License at
+//
+//     http://www.apache.org/licenses/LICENSE-2.0
+//
+// Unless required by applicable law or agreed to in writing, software
+// distributed under the License is distributed on an "AS IS" BASIS,
+// WITHOUT WARRANTIES OR CONDITIONS OF ANY KIND, either express or implied.
+// See the License for the specific language governing permissions and
+// limitations under the License.
+
+//go:build verif
+// +build verif
+
+package pilosa
+
+import (
+	"sort"
+
+	"github.com/pilosa/pilosa/roaring"
+)
+
+// Export shims for the verification harness (/verif, property C21: resize plan and cleanup).
+// Add-only, tag-guarded. Every method calls the unexported function it is named after on a
+// real cluster / Holder / Index.
+
+// VerifC21Frag mirrors frag.
+type VerifC21Frag struct {
+	Field string
+	View  string
+	Shard uint64
+}
+
+// VerifC21Source is one ResizeSource reduced to comparable parts.
+type VerifC21Source struct {
+	Node  string // id of the source node ("" when the plan names no node)
+	Index string
+	Frag  VerifC21Frag
+}
+
+// VerifC21Env is a real Holder in a scratch directory plus a cluster value using it.
+type VerifC21Env struct {
+	h *Holder
+	c *cluster
+}
+
+// VerifC21Open opens a holder at path (nop attribute stores, no translate store).
+func VerifC21Open(path string) (*VerifC21Env, error) {
+	h := NewHolder()
+	h.Path = path
+	if err := h.Open(); err != nil {
+		return nil, err
+	}
+	e := &VerifC21Env{h: h}
+	e.SetCluster(nil, 1, "", "")
+	return e, nil
+}
+
+// Close closes the holder.
+func (e *VerifC21Env) Close() error { return e.h.Close() }
+
+// AddIndex creates an index (existence tracking off) with the given fields and views. Every
+// view gets a real fragment for each of localShards; remoteShards are recorded on every field
+// through AddRemoteAvailableShards (shards known to hold data on other nodes).
+func (e *VerifC21Env) AddIndex(name string, fields []string, views map[string][]string, localShards, remoteShards []uint64) error {
+	idx, err := e.h.CreateIndex(name, IndexOptions{TrackExistence: false})
+	if err != nil {
+		return err
+	}
+	for _, fname := range fields {
+		f, err := idx.CreateField(fname, OptFieldTypeSet(CacheTypeNone, 0))
+		if err != nil {
+			return err
+		}
+		for _, vname := range views[fname] {
+			v, _, err := f.createViewIfNotExistsBase(vname)
+			if err != nil {
+				return err
+			}
+			for _, s := range localShards {
+				if _, err := v.CreateFragmentIfNotExists(s); err != nil {
+					return err
+				}
+			}
+		}
+		if len(remoteShards) > 0 {
+			if err := f.AddRemoteAvailableShards(roaring.NewBitmap(remoteShards...)); err != nil {
+				return err
+			}
+		}
+	}
+	return nil
+}
+
+func verifC21Cluster(ids []string, replicaN int) *cluster {
+	c := newCluster()
+	c.ReplicaN = replicaN
+	for _, id := range ids {
+		uri := defaultURI()
+		_ = uri.setHost("host-" + id)
+		c.addNodeBasicSorted(&Node{ID: id, URI: *uri})
+	}
+	return c
+}
+
+// SetCluster replaces the cluster: nodes joined in the given order through addNodeBasicSorted.
+func (e *VerifC21Env) SetCluster(ids []string, replicaN int, self, coordinator string) {
+	c := verifC21Cluster(ids, replicaN)
+	c.holder = e.h
+	c.Coordinator = coordinator
+	c.Node = &Node{ID: self}
+	if n := c.unprotectedNodeByID(self); n != nil {
+		c.Node = n
+	}
+	c.broadcaster = NopBroadcaster
+	e.c = c
+}
+
+// NodeIDs returns the ids of c.nodes in slice order.
+func (e *VerifC21Env) NodeIDs() []string { return Nodes(e.c.nodes).IDs() }
+
+// Diff calls cluster.diff against a cluster built from toIDs (same replica count).
+func (e *VerifC21Env) Diff(toIDs []string) (string, string, error) {
+	return e.c.diff(verifC21Cluster(toIDs, e.c.ReplicaN))
+}
+
+func verifC21Frags(fs []frag) []VerifC21Frag {
+	out := make([]VerifC21Frag, len(fs))
+	for i, f := range fs {
+		out[i] = VerifC21Frag{Field: f.field, View: f.view, Shard: f.shard}
+	}
+	return out
+}
+
+// FragsByHost calls cluster.fragsByHost for the named index.
+func (e *VerifC21Env) FragsByHost(index string) map[string][]VerifC21Frag {
+	out := map[string][]VerifC21Frag{}
+	for id, fs := range e.c.fragsByHost(e.h.Index(index)) {
+		out[id] = verifC21Frags(fs)
+	}
+	return out
+}
+
+// VerifC21FragsDiff calls fragsDiff.
+func VerifC21FragsDiff(a, b []VerifC21Frag) []VerifC21Frag {
+	conv := func(xs []VerifC21Frag) []frag {
+		var out []frag
+		for _, x := range xs {
+			out = append(out, frag{x.Field, x.View, x.Shard})
+		}
+		return out
+	}
+	return verifC21Frags(fragsDiff(conv(a), conv(b)))
+}
+
+func verifC21Sources(srcs []*ResizeSource) []VerifC21Source {
+	out := make([]VerifC21Source, 0, len(srcs))
+	for _, s := range srcs {
+		id := ""
+		if s.Node != nil {
+			id = s.Node.ID
+		}
+		out = append(out, VerifC21Source{Node: id, Index: s.Index, Frag: VerifC21Frag{s.Field, s.View, s.Shard}})
+	}
+	return out
+}
+
+// FragSources calls cluster.fragSources(to, index) where `to` is built from toIDs with the same
+// replica count. The map has one entry for every key of the returned map.
+func (e *VerifC21Env) FragSources(toIDs []string, index string) (map[string][]VerifC21Source, error) {
+	m, err := e.c.fragSources(verifC21Cluster(toIDs, e.c.ReplicaN), e.h.Index(index))
+	if err != nil {
+		return nil, err
+	}
+	out := make(map[string][]VerifC21Source, len(m))
+	for id, srcs := range m {
+		out[id] = verifC21Sources(srcs)
+	}
+	return out, nil
+}
+
+// VerifC21Job is a generated resize job reduced to comparable parts.
+type VerifC21Job struct {
+	IDs          map[string]bool             // job.IDs (node id -> already complete)
+	Instructions map[string][]VerifC21Source // instruction target node id -> sources
+	Targets      []string                    // instruction target ids in slice order (duplicates visible)
+}
+
+// Job calls cluster.unprotectedGenerateResizeJobByAction for adding/removing node id.
+func (e *VerifC21Env) Job(action, id string) (*VerifC21Job, error) {
+	uri := defaultURI()
+	_ = uri.setHost("host-" + id)
+	j, err := e.c.unprotectedGenerateResizeJobByAction(nodeAction{node: &Node{ID: id, URI: *uri}, action: action})
+	if err != nil {
+		return nil, err
+	}
+	out := &VerifC21Job{IDs: map[string]bool{}, Instructions: map[string][]VerifC21Source{}}
+	for k, v := range j.IDs {
+		out.IDs[k] = v
+	}
+	for _, in := range j.Instructions {
+		nid := ""
+		if in.Node != nil {
+			nid = in.Node.ID
+		}
+		out.Targets = append(out.Targets, nid)
+		out.Instructions[nid] = append(out.Instructions[nid], verifC21Sources(in.Sources)...)
+	}
+	return out, nil
+}
+
+// Clean runs holderCleaner.CleanHolder for the node with the given id under the current cluster.
+func (e *VerifC21Env) Clean(self string) error {
+	hc := &holderCleaner{Node: &Node{ID: self}, Holder: e.h, Cluster: e.c, Closing: make(chan struct{})}
+	return hc.CleanHolder()
+}
+
+// Fragments lists the fragments registered in the holder as "index/field/view/shard" parts.
+func (e *VerifC21Env) Fragments() []VerifC21Source {
+	var out []VerifC21Source
+	for _, idx := range e.h.Indexes() {
+		for _, f := range idx.Fields() {
+			for _, v := range f.views() {
+				for _, fr := range v.allFragments() {
+					out = append(out, VerifC21Source{Index: idx.Name(), Frag: VerifC21Frag{f.Name(), v.name, fr.shard}})
+				}
+			}
+		}
+	}
+	sort.Slice(out, func(i, j int) bool {
+		a, b := out[i], out[j]
+		if a.Index != b.Index {
+			return a.Index < b.Index
+		}
+		if a.Frag.Field != b.Frag.Field {
+			return a.Frag.Field < b.Frag.Field
+		}
+		if a.Frag.View != b.Frag.View {
+			return a.Frag.View < b.Frag.View
+		}
+		return a.Frag.Shard < b.Frag.Shard
+	})
+	return out
+}
